@@ -695,7 +695,7 @@ def replace_planted_case(draw, tier):
         rep = draw(st.sampled_from([1, 1, 1, 2, 3]))
         parts.append(old * rep)
         pos += old_len * rep
-    parts.append(draw(bits_st(max_len=12)))
+    parts.append(draw(bits_of_len(8 * draw(st.integers(0, 2)))) if aligned and draw(st.integers(0, 3)) else draw(bits_st(max_len=12)))
     init = ''.join(parts)
     n = len(init)
     if draw(st.integers(0, 3)) == 0:
